@@ -304,7 +304,7 @@ class Prop:
                 if name in listener:
                     also = cfg.get("also")
                     if also and also[0] != name and also[0] not in rec["itraits"] \
-                            and also[0] not in o._instance_traits() \
+                            and o._trait(also[0], 1) is None \
                             and also[0] not in o.__dict__:
                         # ... and one more, under another name
                         rec["itraits"][also[0]] = also[1]
